@@ -438,6 +438,20 @@ def Fn.divScalar {n : Nat} : Fn α n → α → Option (Fn α n)
   | .sqL2LossOp s F y w, o => some (.sqL2LossOp (s / o) F y w)
   | _, _ => none
 
+/-- `ProximalAverage.__init__`: the weights as the object stores them — equal weights `1/N` when
+    `alpha_list` is `None`, otherwise the given list, divided by its sum when that sum is not `1` -/
+def proxAvgWeights (nfun : Nat) (ofNat : Nat → α) : Option (List α) → List α
+  | none => List.replicate nfun (1 / ofNat nfun)
+  | some al =>
+    let sm := al.foldl (· + ·) 0
+    if sm < 1 ∨ 1 < sm then al.map (· / sm) else al
+
+/-- `ProximalAverage.__call__` (all components finite): `sum([alpha * f(x) …])`, Python's `sum` starts
+    from `0` — as an expression: `((0 + α₁f₁) + α₂f₂) + …` -/
+def proxAvgFn {n : Nat} : List (α × Fn α n) → Fn α n → Fn α n
+  | [], acc => acc
+  | (a, f) :: rest, acc => proxAvgFn rest (.add acc (.scaled a f))
+
 /-- `SquaredL2Loss.hessian` (`eval_fn` and `adj_fn` are the same closure):
     `x ↦ 2 * self.scale * A.adj(W(A(x)))` -/
 def hessianApply {n m : Nat} (s : α) (A : Mat α m n) (w : Vec α m) (x : CVec α n) : CVec α n :=
